@@ -476,6 +476,53 @@ def segment_streams(fn, src_pred=None):
             paths = new
         return paths
 
+    # names that hold the stream itself, possibly filtered:  N = [seg for seg in S if <tests>]  /  N = Segment.filter_control(S)  /
+    # N = list(S)  with S the source (or such a name); a loop over N is a loop over S behind those filters
+    derived = {}
+    n_defs = {}
+    for a in walk_local(fn.node):
+        if isinstance(a, _ast.Assign) and len(a.targets) == 1 and isinstance(a.targets[0], _ast.Name):
+            n_defs[a.targets[0].id] = n_defs.get(a.targets[0].id, 0) + 1
+
+    def src_ok(it):
+        return (src_pred is None or src_pred(it)) or (isinstance(it, _ast.Name) and it.id in derived)
+    changed = src_pred is not None
+    while changed:
+        changed = False
+        for a in walk_local(fn.node):
+            if not (isinstance(a, _ast.Assign) and len(a.targets) == 1 and isinstance(a.targets[0], _ast.Name)):
+                continue
+            N = a.targets[0].id
+            if N in derived or n_defs.get(N) != 1:
+                continue
+            v = a.value
+            S = flt = None
+            if isinstance(v, (_ast.ListComp, _ast.GeneratorExp)) and len(v.generators) == 1 and identity_elt(v.elt, v.generators[0].target):
+                rr = renamer(v.generators[0].target)
+                if rr is not None:
+                    S, flt = v.generators[0].iter, {}
+                    for cond in v.generators[0].ifs:
+                        for at, tv in canon_test(rr[0].visit(copy.deepcopy(cond)), True):
+                            flt[at] = tv
+            elif isinstance(v, _ast.Call) and norm(v.func).endswith("filter_control") and len(v.args) == 1 and not v.keywords:
+                S, flt = v.args[0], {"CTRL": False}
+            elif isinstance(v, _ast.Call) and norm(v.func) in ("list", "tuple") and len(v.args) == 1 and not v.keywords:
+                S, flt = v.args[0], {}
+            if S is not None and norm(S) != N and ((src_pred(S)) or (isinstance(S, _ast.Name) and S.id in derived)):
+                derived[N] = (S, flt, a)
+                changed = True
+
+    def derived_prefilters(it, defs):
+        out = []
+        seen = set()
+        while isinstance(it, _ast.Name) and it.id in derived and it.id not in seen:
+            seen.add(it.id)
+            S, flt, a = derived[it.id]
+            if flt:
+                out.append((enclosing_true_facts(a, defs), flt))
+            it = S
+        return out
+
     # generator functions nested in fn (`def render_segments(): for .. in buffer: yield ..`) belong to fn
     scopes = [fn.node] + [x for x in walk_local(fn.node) if isinstance(x, _ast.FunctionDef) and x is not fn.node]
     streams = []
@@ -485,8 +532,10 @@ def segment_streams(fn, src_pred=None):
             if isinstance(x, (_ast.ListComp, _ast.GeneratorExp)) and len(x.generators) == 1:
                 ge = x.generators[0]
                 rr = renamer(ge.target)
-                if rr is None or (src_pred is not None and not src_pred(ge.iter)):
+                if rr is None or not src_ok(ge.iter):
                     continue
+                if any(x is d[2].value for d in derived.values()):
+                    continue  # the definition of a derived stream name
                 if identity_elt(x.elt, ge.target) and ge.ifs:
                     continue  # a pure filter of the stream: handled as a pre-filter of the stream that consumes it
                 r, bound = rr
@@ -504,10 +553,10 @@ def segment_streams(fn, src_pred=None):
                     paths.append((d, retext(r, txt)))
                 for cond in ge.ifs:
                     paths.append((dict(canon_test(r.visit(copy.deepcopy(inline(cond, en.defs))), False)), None))
-                streams.append((ge.iter, with_prefilters(paths, prefilters(ge.iter, x.lineno, en.defs)), x))
+                streams.append((ge.iter, with_prefilters(paths, prefilters(ge.iter, x.lineno, en.defs) + derived_prefilters(ge.iter, en.defs)), x))
             elif isinstance(x, _ast.For):
                 rr = renamer(x.target)
-                if rr is None or (src_pred is not None and not src_pred(x.iter)):
+                if rr is None or not src_ok(x.iter):
                     continue
                 r, bound = rr
                 en = Enumerator(fn.node)
@@ -536,7 +585,7 @@ def segment_streams(fn, src_pred=None):
                         paths.append((d, None))
                     for em in emits:
                         paths.append((d, em))
-                streams.append((x.iter, with_prefilters(paths, prefilters(x.iter, x.lineno, en.defs)), x))
+                streams.append((x.iter, with_prefilters(paths, prefilters(x.iter, x.lineno, en.defs) + derived_prefilters(x.iter, en.defs)), x))
     return streams
 
 
